@@ -75,28 +75,34 @@ def check_paths(F, paths, unit_lens, kind, reg, values, n_prefix):
     return status, why
 
 
-def inversion(chk, F, which, rule_prefix='inversion', kinds=('7bit', 'increment', 'decrement', '14bit')):
+def inversion(chk, F, which, rule_prefix='inversion', kinds=('7bit', 'increment', 'decrement', '14bit'), channels=(0,)):
+    model, spec, P0, allp = scanners.product(F, which)
+    for k in channels:
+        _inversion_on_channel(chk, F, which, rule_prefix, kinds, model, allp[k], k)
+    return P0
+
+
+def _inversion_on_channel(chk, F, which, rule_prefix, kinds, model, P, k):
     cfg = F.cfg
-    model, spec, P, allp = scanners.product(F, which)
     for key in P.order:
         cs, ss, cons0, label = P.pairs[key]
         for kind in kinds:
             for reg in (0, 1):
-                okey = '%s/%s/%s/%s.%s/from-%s' % (chk.pid, rule_prefix, cfg, kind, 'registered' if reg else 'nonregistered', A.spec_shape(ss))
+                okey = '%s/%s/%s/%s.%s/from-%s%s' % (chk.pid, rule_prefix, cfg, kind, 'registered' if reg else 'nonregistered', A.spec_shape(ss), '/channel-%d' % k if k else '')
 
-                def ev(cs=cs, cons0=cons0, kind=kind, reg=reg, okey=okey):
+                def ev(cs=cs, cons0=cons0, kind=kind, reg=reg, okey=okey, k=k):
                     cons = dict(cons0)
                     vmax = 16383 if kind == '14bit' else 127
                     v1, v2 = val_tok(1), val_tok(2)
-                    cons.update({CH: VS.one(0), NUM: VS(0, 16383), v1: VS(0, vmax), v2: VS(0, vmax)})
+                    cons.update({CH: VS.one(k), NUM: VS(0, 16383), v1: VS(0, vmax), v2: VS(0, vmax)})
                     u1, u2 = unit_msgs(kind, v1, cons), unit_msgs(kind, v2, cons)
                     msgs = number_msgs(reg, cons) + u1 + u2
-                    paths = seq.run_sequence(F, model, P.roles, cs, cons, msgs)
+                    paths = seq.run_sequence(F, model, P.roles, cs, cons, msgs, k=k)
                     status, why = check_paths(F, paths, [len(u1), len(u2)], kind, reg, [v1, v2], 2)
                     # induction step for longer running forms: the unit maps the post-selection typestate to itself
                     if status == 'proved':
-                        pa = seq.run_sequence(F, model, P.roles, cs, cons, number_msgs(reg, cons) + u1)
-                        pb = seq.run_sequence(F, model, P.roles, cs, cons, msgs)
+                        pa = seq.run_sequence(F, model, P.roles, cs, cons, number_msgs(reg, cons) + u1, k=k)
+                        pb = seq.run_sequence(F, model, P.roles, cs, cons, msgs, k=k)
                         ka = set(A.canonical_pair(p.state, (), p.cons)[3][0] for p in pa if not p.dead)
                         kb = set(A.canonical_pair(p.state, (), p.cons)[3][0] for p in pb if not p.dead)
                         if ka != kb:
@@ -121,7 +127,7 @@ def run(tier, cmd):
                             'each report their own message. Channel routing of the outer scanner is C15.')
     Fs = load_configs(chk, ['K1'] + (['K2'] if tier == 'thorough' else []), required=('K1',))
     for cfg, F in sorted(Fs.items()):
-        P = guarded(chk, '%s/inversion/%s' % (PID, cfg), 'encoder/scanner composition', lambda F=F: inversion(chk, F, 'pn'))
+        P = guarded(chk, '%s/inversion/%s' % (PID, cfg), 'encoder/scanner composition', lambda F=F: inversion(chk, F, 'pn', channels=range(16) if (tier == 'thorough' and F.cfg == 'K1') else (0,)))
         if P is not None:
             chk.floor('start_states_%s' % cfg, 14, len(P.pairs))
     return chk.finish()
